@@ -12,46 +12,106 @@ namespace Avo.Tags
 
 /-- The constraint sets for which the property is claimed.  `valid` is avo's own
 `Validate` (which, since /repo 0ad3cb8, rejects options without terms and
-constraint lines without options: former findings F8, F8b); the two size clauses
-are forced by the proof, and the real code violates the property without each
-of them (witness theorems below, findings F8c, F8d). -/
+constraint lines without options: former findings F8, F8b); the three size
+clauses are the exact limits of the toolchain / of `Format`'s scanner, and the
+real code violates the property beyond each of them (witness theorems below,
+findings F8c, F8d, F8e).  Input-level sufficient conditions:
+`printable_of_bounds`. -/
 structure Printable (tc : Char → Bool) (cs : Constraints) : Prop where
   /-- avo accepts the set: `cs.Validate() == nil` -/
   valid : validate tc cs = true
   /-- at most 100 AND/OR operators per `// +build` line (`maxOldSize`; F8c) -/
   lineSize : ∀ c ∈ cs, termCount c ≤ maxOldSize + 1
-  /-- the synthesised `//go:build` expression stays within the parser's `maxSize` (F8d) -/
-  totalSize : 2 * sizeBound cs ≤ maxSize + 1
+  /-- the synthesised `//go:build` expression has at most `maxSize` parser operands
+  (tags and parenthesised groups; the toolchain's limit, F8d) -/
+  totalSize : ∀ e, headerExpr tc cs = some e → e.psize ≤ maxSize
+  /-- the `//go:build` line is shorter than 64 KiB (`Format`'s `bufio.Scanner`, F8e) -/
+  textSize : ∀ e, headerExpr tc cs = some e → utf8Len (goBuildPrefix ++ e.print) < scanLimit
 
 /-- **C14, equivalence, full statement.**  For every printable constraint set and
-every tag assignment, the toolchain accepts the header avo prints and selects
-the file exactly when avo's `Evaluate` is true. -/
+every tag assignment, `Format` succeeds, the toolchain accepts the header avo
+prints and selects the file exactly when avo's `Evaluate` is true. -/
 def C14_statement (tc : Char → Bool) : Prop :=
   ∀ (cs : Constraints) (v : Str → Bool), Printable tc cs →
-    toolchainSelects v (format tc cs) = some (evaluate tc v cs)
+    outcome tc v cs = .selected (evaluate tc v cs)
 
-/-- The synthesised expression is small enough for the toolchain's parser. -/
+/-- Input-level sufficient condition for `Printable.totalSize`: twice the number
+of terms (an empty line counting one) is at most 1001. -/
 theorem header_psize {tc : Char → Bool} (hs : SepFree tc) (c : Constraint) (cs : Constraints)
-    (h : Printable tc (c :: cs)) :
+    (hv : validate tc (c :: cs) = true) (hsz : 2 * sizeBound (c :: cs) ≤ maxSize + 1) :
     (andAll (lineExpr tc c) (cs.map (lineExpr tc))).psize ≤ maxSize := by
-  obtain ⟨_, hne, hv⟩ := (validate_iff tc (c :: cs)).mp h.valid
+  obtain ⟨_, hne, hv⟩ := (validate_iff tc (c :: cs)).mp hv
   have h1 := psize_le (andAll (lineExpr tc c) (cs.map (lineExpr tc)))
   rw [leaves_header hs c cs hv hne] at h1
-  have := h.totalSize
   omega
+
+theorem format_def (tc : Char → Bool) (cs : Constraints) :
+    formatHeader tc (goString cs ++ stubSuffix) = format tc cs := rfl
+
+theorem formatChecked_goBuild (tc : Char → Bool) (cs : Constraints) (e : Expr)
+    (hf : format tc cs = .goBuild e) :
+    formatChecked tc cs =
+      if tooLong (goBuildPrefix ++ e.print) then Option.none else some (.goBuild e) := by
+  have hf' : formatHeader tc (goString cs ++ stubSuffix) = .goBuild e := hf
+  simp only [formatChecked, scannedLines, hf', List.any_cons, List.any_nil, Bool.or_false]
+
+theorem formatChecked_none (tc : Char → Bool) (cs : Constraints)
+    (hf : format tc cs = .none) :
+    formatChecked tc cs =
+      if (split '\n' (goString cs ++ stubSuffix)).any tooLong then Option.none else some .none := by
+  have hf' : formatHeader tc (goString cs ++ stubSuffix) = .none := hf
+  simp only [formatChecked, scannedLines, hf']
+
+/-- `Format` either fails or returns the header go/format synthesised. -/
+theorem formatChecked_cases (tc : Char → Bool) (cs : Constraints) :
+    formatChecked tc cs = Option.none ∨ formatChecked tc cs = some (format tc cs) := by
+  unfold formatChecked
+  simp only [format_def]
+  split
+  · exact Or.inl rfl
+  · exact Or.inr rfl
 
 theorem tags_equiv {tc : Char → Bool} (hs : SepFree tc) : C14_statement tc := by
   intro cs v h
   obtain ⟨hcne, hne, hv⟩ := (validate_iff tc cs).mp h.valid
-  rw [format_eq hs cs hv hne h.lineSize]
+  have hf := format_eq hs cs hv hne h.lineSize
   cases cs with
-  | nil => rfl
+  | nil =>
+    have hf0 : format tc [] = .none := hf
+    have h1 := formatChecked_none tc [] hf0
+    have hl : (split '\n' (goString [] ++ stubSuffix)).any tooLong = false := by decide
+    simp only [hl, Bool.false_eq_true, if_false] at h1
+    simp only [outcome, h1, toolchainSelects]
+    rfl
   | cons c cs =>
-    simp only [List.map_cons, toolchainSelects]
-    have hp := header_psize hs c cs h
+    have hfe : format tc (c :: cs) = .goBuild (andAll (lineExpr tc c) (cs.map (lineExpr tc))) := hf
+    have hp := h.totalSize _ rfl
+    have ht := h.textSize _ rfl
+    have hl : tooLong (goBuildPrefix ++ (andAll (lineExpr tc c) (cs.map (lineExpr tc))).print) = false := by
+      unfold tooLong; simp only [decide_eq_false_iff_not]; omega
+    have h1 := formatChecked_goBuild tc (c :: cs) _ hfe
+    simp only [hl, Bool.false_eq_true, if_false] at h1
     have : ¬ (andAll (lineExpr tc c) (cs.map (lineExpr tc))).psize > maxSize := by omega
-    simp only [this, if_false]
+    simp only [outcome, h1, toolchainSelects, this, if_false]
     rw [eval_header hs v c cs hv hne (Or.inl hcne)]
+
+/-- In terms of `Format`'s result and the toolchain's decision separately: `Format`
+succeeds with the header go/format synthesised, and the toolchain's decision on
+it is avo's `Evaluate`. -/
+theorem tags_equiv_selects {tc : Char → Bool} (hs : SepFree tc) (cs : Constraints) (v : Str → Bool)
+    (h : Printable tc cs) :
+    formatChecked tc cs = some (format tc cs) ∧
+    toolchainSelects v (format tc cs) = some (evaluate tc v cs) := by
+  have := tags_equiv hs cs v h
+  unfold outcome at this
+  rcases formatChecked_cases tc cs with hfc | hfc
+  · rw [hfc] at this; exact absurd this (by simp)
+  · rw [hfc] at this
+    refine ⟨hfc, ?_⟩
+    simp only at this
+    cases hts : toolchainSelects v (format tc cs) with
+    | none => rw [hts] at this; exact absurd this (by simp)
+    | some b => rw [hts] at this; simp only [Outcome.selected.injEq] at this; rw [this]
 
 /-- The text avo prints (the output of `buildtags.Format`) for a printable set:
 nothing for the empty set, otherwise the single line
@@ -157,9 +217,9 @@ theorem sepFree_of_table (ranges : List (Nat × Nat)) (h : sepFreeTable ranges =
 
 /-! ### Acceptor (what the driver evaluates on the implementation's outputs) -/
 
-/-- `avo[i]` = avo's `Evaluate` under assignment `i`; `tool[i]` = the toolchain's
-decision for the header avo printed (`none` = rejected). -/
-def acceptEvals (avo : List Bool) (tool : List (Option Bool)) : Bool := tool == avo.map some
+/- `acceptEvals` (Model/Tags.lean): `avo[i]` = avo's `Evaluate` under assignment `i`;
+`tool[i]` = the toolchain's decision (`none` = rejected).  Used by the driver for
+`accept-parse` lines; `Obs.ok` is three instances of it. -/
 
 theorem acceptEvals_sound (avo : List Bool) (tool : List (Option Bool)) :
     acceptEvals avo tool = true ↔
@@ -177,6 +237,40 @@ theorem acceptEvals_sound (avo : List Bool) (tool : List (Option Bool)) :
       have h2 : (avo.map some)[i]? = none := by apply List.getElem?_eq_none; simp; omega
       rw [h1, h2]
 
+/-- The property on one observation of the real code, declaratively: `Format`
+succeeded, the toolchain accepted every printed constraint line, on every
+enumerated assignment `i` the three toolchain answers (go/build/constraint on the
+printed lines, go/build `MatchFile` on the printed stub file and on the printed
+assembly file) are avo's `Evaluate`, and every constraint parsed back from its
+printed form. -/
+def Obs.Holds (o : Obs) : Prop :=
+  o.fmtErr = false ∧ o.rejected = false ∧
+  (o.tcb.length = o.ev.length ∧ ∀ i (h : i < o.ev.length), o.tcb[i]? = some (some o.ev[i])) ∧
+  (o.mg.length = o.ev.length ∧ ∀ i (h : i < o.ev.length), o.mg[i]? = some (some o.ev[i])) ∧
+  (o.ma.length = o.ev.length ∧ ∀ i (h : i < o.ev.length), o.ma[i]? = some (some o.ev[i])) ∧
+  ∀ r ∈ o.rt, r = some true
+
+/-- The acceptor the driver runs on every `accept-tags` line (`Obs.ok`, the
+driver answers `ok` exactly when it is true) decides the declarative form. -/
+theorem acceptObs_sound (o : Obs) : o.ok = true ↔ o.Holds := by
+  unfold Obs.ok Obs.Holds
+  simp only [Bool.and_eq_true, Bool.not_eq_true', List.all_eq_true, beq_iff_eq]
+  rw [← acceptEvals_sound, ← acceptEvals_sound, ← acceptEvals_sound]
+  unfold acceptEvals
+  simp only [beq_iff_eq]
+  constructor
+  · intro ⟨⟨⟨⟨⟨h1, h2⟩, h3⟩, h4⟩, h5⟩, h6⟩; exact ⟨h1, h2, h3, h4, h5, h6⟩
+  · intro ⟨h1, h2, h3, h4, h5, h6⟩; exact ⟨⟨⟨⟨⟨h1, h2⟩, h3⟩, h4⟩, h5⟩, h6⟩
+
+/-- Non-vacuity of the acceptor: it accepts an agreeing observation and rejects a
+`Format` error, a toolchain rejection, one differing bit, and a failed round trip. -/
+example :
+    let good : Obs := ⟨false, false, [true, false], [some true, some false], [some true, some false],
+      [some true, some false], [some true]⟩
+    good.ok = true ∧ ({ good with fmtErr := true }).ok = false ∧ ({ good with rejected := true }).ok = false ∧
+    ({ good with ma := [some true, some true] }).ok = false ∧ ({ good with mg := [some true, none] }).ok = false ∧
+    ({ good with rt := [some false] }).ok = false ∧ ({ good with rt := [none] }).ok = false := by decide
+
 /-! ### Non-vacuity and witnesses of the hypotheses (ASCII tag characters) -/
 
 theorem sepFree_ascii : SepFree asciiTag := sepFree_of_table asciiRanges (by decide)
@@ -186,7 +280,9 @@ private def s (x : String) : Str := x.toList
 /-- Non-vacuity: a two-line formula with negation, digits, dot, underscore meets
 all hypotheses; the theorem then speaks about a non-trivial header. -/
 def exampleCs : Constraints := [[[s "linux", s "386"], [s "darwin", s "!cgo"]], [[s "!pure_go.1"]]]
-example : Printable asciiTag exampleCs := ⟨by decide, by decide, by decide⟩
+theorem exampleCs_printable : Printable asciiTag exampleCs :=
+  ⟨by decide, by decide, fun e he => by cases he; decide, fun e he => by cases he; decide⟩
+example : outcome asciiTag (fun t => t == s "darwin") exampleCs = .selected true := by decide
 example : (format asciiTag exampleCs).text = s "//go:build ((linux && 386) || (darwin && !cgo)) && !pure_go.1\n" := by decide
 example : toolchainSelects (fun t => t == s "darwin") (format asciiTag exampleCs) = some true := by decide
 example : parseConstraint asciiTag (s " linux,386 darwin,!cgo\n") = some [[s "linux", s "386"], [s "darwin", s "!cgo"]] := by decide
@@ -235,7 +331,8 @@ theorem tags_equiv_fails_long_line :
     let v : Str → Bool := fun _ => false
     validate asciiTag cs = true ∧ evaluate asciiTag v cs = false ∧
     (format asciiTag cs).text = [] ∧
-    toolchainSelects v (format asciiTag cs) = some true := by decide +kernel
+    toolchainSelects v (format asciiTag cs) = some true ∧
+    outcome asciiTag v cs = .selected true := by decide +kernel
 
 /-- **F8d.**  Eleven lines of 100 terms each validate; the synthesised
 `//go:build` line has 1100 tags and the toolchain rejects it
@@ -244,6 +341,108 @@ theorem tags_equiv_fails_large_set :
     let cs : Constraints := List.replicate 11 [List.replicate 100 (s "a")]
     validate asciiTag cs = true ∧
     (∀ c ∈ cs, termCount c ≤ maxOldSize + 1) ∧
-    toolchainSelects (fun _ => true) (format asciiTag cs) = none := by decide +kernel
+    toolchainSelects (fun _ => true) (format asciiTag cs) = none ∧
+    outcome asciiTag (fun _ => true) cs = .rejected := by decide +kernel
+
+
+/-! ### F8e: `Format` fails on a valid set with a very long line -/
+
+theorem utf8Len_append (a b : Str) : utf8Len (a ++ b) = utf8Len a + utf8Len b := by
+  unfold utf8Len
+  rw [List.foldl_append]
+  generalize List.foldl (fun n c => n + c.utf8Size) 0 a = k
+  induction b generalizing k with
+  | nil => simp
+  | cons c cs ih =>
+    simp only [List.foldl_cons]
+    rw [ih (k + c.utf8Size), ih (0 + c.utf8Size)]
+    omega
+
+theorem utf8Len_replicate_a (n : Nat) : utf8Len (List.replicate n 'a') = n := by
+  induction n with
+  | zero => rfl
+  | succ n ih =>
+    have : List.replicate (n + 1) 'a' = ['a'] ++ List.replicate n 'a' := rfl
+    rw [this, utf8Len_append, ih]
+    have : utf8Len ['a'] = 1 := by decide
+    omega
+
+/-- A single un-negated valid term `w`: the set `[[[w]]]` validates, but when
+`//go:build w` has 64 KiB or more `Format` fails (for every assignment no file
+is printed), although `Evaluate` is defined and true under `w`. -/
+theorem long_term_format_error {tc : Char → Bool} (hs : SepFree tc) (w : Str)
+    (hw : validTerm tc w = true) (hneg : isNegated w = false)
+    (hlen : scanLimit ≤ 11 + utf8Len w) :
+    validate tc [[[w]]] = true ∧ (∀ v, outcome tc v [[[w]]] = .formatError) ∧
+    evaluate tc (fun t => t == w) [[[w]]] = true := by
+  have hval : validate tc [[[w]]] = true := by simp [validate, validConstraint, validOpt, hw]
+  obtain ⟨_, hne, hv⟩ := (validate_iff tc [[[w]]]).mp hval
+  have hname : name w = w := by
+    rcases name_cases w with ⟨_, h⟩ | ⟨h, _⟩
+    · rw [hneg] at h; exact absurd h (by simp)
+    · exact h
+  have hf := format_eq hs [[[w]]] hv hne (by intro c hc; simp at hc; subst hc; simp [termCount, maxOldSize])
+  have hsplit : split ',' w = [w] := by
+    have := split_optText hs [w] (by simp [termsValid, hw]) (by simp)
+    simpa [optText, join] using this
+  have he : lineExpr tc [[w]] = .tag w := by
+    simp only [lineExpr, List.map_cons, List.map_nil, orAll, optText, join, clauseExpr, hsplit, andAll,
+      litExpr_valid tc w hw, hneg, hname]
+    rfl
+  have hfe : format tc [[[w]]] = .goBuild (.tag w) := by
+    rw [hf]; simp only [List.map_cons, List.map_nil, andAll, he]
+  have h1 := formatChecked_goBuild tc [[[w]]] _ hfe
+  have hl : tooLong (goBuildPrefix ++ (Expr.tag w).print) = true := by
+    unfold tooLong
+    simp only [decide_eq_true_eq, Expr.print, utf8Len_append]
+    have : utf8Len goBuildPrefix = 11 := by decide
+    omega
+  simp only [hl, if_true] at h1
+  refine ⟨hval, ?_, ?_⟩
+  · intro v; simp only [outcome, h1]
+  · simp [evaluate, evalConstraint, evalOpt, evalTerm, hw, hname, hneg]
+
+/-- **F8e.**  The one-term set with a tag of 70 000 `a`s validates and evaluates
+to true when the tag is set, but `buildtags.Format` fails on it
+(`bufio.Scanner: token too long`): both printers return an error.  The
+toolchain itself has no such limit. -/
+theorem tags_equiv_fails_long_term :
+    let w : Str := List.replicate 70000 'a'
+    validate asciiTag [[[w]]] = true ∧ (∀ v, outcome asciiTag v [[[w]]] = .formatError) ∧
+    evaluate asciiTag (fun t => t == w) [[[w]]] = true := by
+  intro w
+  have hmem : ∀ c ∈ w, c = 'a' := fun c hc => List.eq_of_mem_replicate hc
+  have hw : validTerm asciiTag w = true := by
+    rw [validTerm_iff]
+    have hn : name w = w := rfl
+    refine ⟨?_, ?_, ?_⟩
+    · intro r hr
+      have : w = 'a' :: List.replicate 69999 'a' := rfl
+      rw [this] at hr
+      exact absurd (List.cons.inj hr).1 (by decide)
+    · rw [hn]; exact (by decide : List.replicate (69999 + 1) 'a' ≠ [])
+    · intro c hc; rw [hn] at hc; rw [hmem c hc]; decide
+  exact long_term_format_error sepFree_ascii w hw rfl (by
+    have : utf8Len w = 70000 := utf8Len_replicate_a 70000
+    rw [this]; decide)
+
+/-- The limits are sharp in the other direction too (non-vacuity at the
+boundaries): 10 lines of 100 terms (1000 operands; `2 * sizeBound = 2000`) and a line of exactly 101 terms
+are printable. -/
+theorem printable_of_checks (tc : Char → Bool) (cs : Constraints)
+    (h1 : validate tc cs = true) (h2 : cs.all (fun c => decide (termCount c ≤ maxOldSize + 1)) = true)
+    (h3 : (headerExpr tc cs).all (fun e => decide (e.psize ≤ maxSize)) = true)
+    (h4 : (headerExpr tc cs).all (fun e => decide (utf8Len (goBuildPrefix ++ e.print) < scanLimit)) = true) :
+    Printable tc cs := by
+  refine ⟨h1, ?_, ?_, ?_⟩
+  · intro c hc; simpa using (List.all_eq_true.mp h2) c hc
+  · intro e he; rw [he] at h3; simpa using h3
+  · intro e he; rw [he] at h4; simpa using h4
+
+theorem printable_at_operand_limit : Printable asciiTag (List.replicate 10 [List.replicate 100 (s "a")]) :=
+  printable_of_checks _ _ (by decide +kernel) (by decide +kernel) (by decide +kernel) (by decide +kernel)
+
+theorem printable_at_line_limit : Printable asciiTag [[List.replicate 101 (s "a")]] :=
+  printable_of_checks _ _ (by decide +kernel) (by decide +kernel) (by decide +kernel) (by decide +kernel)
 
 end Avo.Tags
